@@ -420,8 +420,13 @@ impl RemoveOpts {
         } else {
             if let Some(meta) = crate::metadata_sync(cache.as_ref(), key.as_ref())? {
                 let content = content_path(cache.as_ref(), &meta.integrity);
-                fs::remove_file(&content)
-                    .with_context(|| format!("Failed to remove content at {content:?}"))?;
+                match fs::remove_file(&content) {
+                    // Already gone (removed by address, or by an earlier
+                    // attempt that was interrupted): go on with the entry.
+                    Err(err) if err.kind() == ErrorKind::NotFound => {}
+                    res => res
+                        .with_context(|| format!("Failed to remove content at {content:?}"))?,
+                }
             }
             let bucket = bucket_path(cache.as_ref(), key.as_ref());
             fs::remove_file(&bucket)
@@ -441,9 +446,13 @@ impl RemoveOpts {
         } else {
             if let Some(meta) = crate::metadata(cache.as_ref(), key.as_ref()).await? {
                 let content = content_path(cache.as_ref(), &meta.integrity);
-                crate::async_lib::remove_file(&content)
-                    .await
-                    .with_context(|| format!("Failed to remove content at {content:?}"))?;
+                match crate::async_lib::remove_file(&content).await {
+                    // Already gone (removed by address, or by an earlier
+                    // attempt that was interrupted): go on with the entry.
+                    Err(err) if err.kind() == ErrorKind::NotFound => {}
+                    res => res
+                        .with_context(|| format!("Failed to remove content at {content:?}"))?,
+                }
             }
             let bucket = bucket_path(cache.as_ref(), key.as_ref());
             crate::async_lib::remove_file(&bucket)
